@@ -15,6 +15,15 @@ contains
     integer :: i, j{locals}
 {body}
   end subroutine s
+  subroutine bump(x)
+    integer, intent(inout) :: x
+    x = x + 10
+  end subroutine bump
+  subroutine scale2(x, y)
+    real(kind=8), intent(in) :: x
+    real(kind=8), intent(out) :: y
+    y = x * 2.0
+  end subroutine scale2
 end module m
 """
 
@@ -195,6 +204,28 @@ end do""")
             f"{pre}do i = lo, hi\n  {upd}\n  a(i) = b(k)\nend do{pst}")
         add("induct_after", {"c": c, "form": form, "post": post, "init": init},
             f"{pre}do i = lo, hi\n  a(i) = b(k)\n  {upd}\nend do{pst}")
+    # loops containing calls to (impure) module routines
+    for v in [1, 2, 3, 4, 5]:
+        body = {1: "k = i - 1\n  call bump(k)\n  a(i) = k",
+                2: "k = n + 1\n  call bump(k)\n  a(i) = k",
+                3: "call bump(k)\n  a(i) = b(i) + k",
+                4: "t = b(i)\n  call scale2(t, r)\n  a(i) = r",
+                5: "k = i\n  a(i) = k\n  call bump(k)\n  c(i) = k"}[v]
+        add("loop_call", {"v": v}, f"do i = lo, hi\n  {body}\nend do")
+    add("fuse_call", {"v": 1}, """
+do i = lo, hi
+  call bump(k)
+end do
+do i = lo, hi
+  a(i) = k
+end do""")
+    add("fuse_call", {"v": 2}, """
+do i = lo, hi
+  call scale2(b(i), a(i))
+end do
+do i = lo, hi
+  c(i) = a(i+1)
+end do""")
     # foldret
     for depth, neg in itertools.product([1, 2], [0, 1]):
         conds = ["n < 1", "t > 0.0"][:depth]
